@@ -244,7 +244,9 @@ func responseHandler(ctx context.Context, s types.Store, w http.ResponseWriter, 
 		http.Error(w, errorMsg, http.StatusBadRequest)
 		return
 	}
-	notFoundErrs := make(chan error, 1)
+	// postResponse reports up to two errors (one for each of the two
+	// store writes it performs concurrently), and must never block on that.
+	notFoundErrs := make(chan error, 2)
 	log.Printf("Posting a response [%q]", response.RequestID)
 	postResponse(ctx, s, response, notFoundErrs)
 	close(notFoundErrs)
